@@ -26,3 +26,4 @@ mod c19;
 mod c20;
 mod c21;
 mod c24;
+mod xp;
